@@ -93,6 +93,44 @@ def random_history(rng, ndirs, nuris, n):
     return h
 
 
+def lifecycle_history(rng, ndirs, nuris, n):
+    """biased towards the interesting paths: files that were fetched get modified / broken / deleted (with and
+    without a tick in between), fetched again, other URIs are fetched to force evictions"""
+    h = []
+    files = []          # (d, u) that exist
+    fetched = []        # URIs fetched so far
+    made = 0
+    c = 0
+    while len(h) < n:
+        r = rng.random()
+        if r < 0.34:
+            u = rng.choice(fetched) if fetched and rng.random() < 0.7 else \
+                (rng.choice(files)[1] if files and rng.random() < 0.8 else rng.randrange(nuris))
+            h.append(("g" if rng.random() < 0.85 else "h", u)); made += 1
+            if u not in fetched:
+                fetched.append(u)
+        elif r < 0.58:
+            if files and rng.random() < 0.65:
+                cand = [f for f in files if f[1] in fetched] or files
+                d, u = rng.choice(cand)
+            else:
+                d, u = rng.randrange(ndirs), rng.randrange(nuris)
+            c += 1; h.append(("w", d, u, c))
+            if (d, u) not in files:
+                files.append((d, u))
+        elif r < 0.76:
+            h.append(("t", rng.choice([1, 1, 2, 5])))
+        elif r < 0.83 and files:
+            d, u = rng.choice(files); h.append(("d", d, u)); files.remove((d, u))
+        elif r < 0.89 and files:
+            d, u = rng.choice(files); h.append(("b", d, u))
+        elif r < 0.95:
+            c += 1; h.append(("s", rng.randrange(nuris), c)); made += 1
+        elif made:
+            h.append(("p", rng.randrange(nuris), rng.randrange(max(1, made // 2 + 1))))
+    return h
+
+
 ALPHABET = [("t", 1), ("w", 0, 0, None), ("w", 1, 0, None), ("d", 0, 0), ("b", 0, 0), ("g", 0), ("g", 1), ("h", 0),
             ("w", 0, 1, None), ("s", 0, None), ("s", 1, None), ("p", 1, 0)]
 
@@ -109,6 +147,7 @@ def exhaustive_histories(L):
 # witnesses of the Lean counterexample theorems / recorded findings: (ndirs, checks, size, moddir, history)
 CORPUS = [
     (2, True, -1, True, "w1.0.1;t1;w0.0.2;g0;t1;d0.0;g0;g0;t5;g0"),          # module file of the URI outlives its source
+    (1, True, -1, True, "w0.0.1;g0;t1;w0.0.3;t1;w0.1.4;g1;p1.0;g1"),          # fresh_counterexample (alias via put_template)
     (1, True, 1, False, "s0.7;s1.8;g0"),                                      # LRU drops a put_string entry
     (2, True, 1, False, "w1.0.5;w0.1.9;g0;t1;w0.0.6;t1;g1;g0"),               # eviction un-shadows directory 0
     (1, True, 1, False, "w0.0.1;w0.1.9;g0;w0.0.2;g1;g0"),                     # eviction refreshes within the grace second
@@ -116,6 +155,8 @@ CORPUS = [
     (1, True, -1, True, "w0.0.1;g0;s1.2;t1;w0.0.3;g0;p0.0;t1;w0.1.4;g1"),
     (1, True, 2, False, "s0.1;s1.2;s0.3;s2.4;g0"),                            # replace does not re-stamp
     (1, True, -1, False, "w0.0.1;g0;t1;b0.0;g0;g0;w0.0.2;g0"),                # failed compile, corrected file loads
+    (1, True, -1, False, "w0.0.1;g0;d0.0;h0;h0"),                             # has_template on a vanished file
+    (1, True, 2, False, "w0.0.1;g0;s0.2;g0;s0.3;g0;p0.0;g0"),                 # stores onto an existing key (LRU)
 ]
 
 
@@ -381,6 +422,9 @@ def reference(ndirs, checks, size, moddir, history, steps):
                     put[u] = op[2]
                 else:
                     put.pop(u, None)
+            if u in put and st["cached"].get(u) != put[u] and not (size != -1 and u not in st["keys"]):
+                yield ("put-entry-not-stored", i, "object %d was put under u%d, the collection holds %r"
+                       % (put[u], u, st["cached"].get(u)))
             if u not in prev["keys"]:
                 lastuse[u] = i
             if size != -1:
@@ -421,8 +465,10 @@ def reference(ndirs, checks, size, moddir, history, steps):
                 csrc, cstamp = st["srcs"][cached_id]
                 if checks and csrc is not None and csrc not in disk:
                     # ---- vanished file
-                    if out not in ("lookup", "has0") or (k == "g" and out != "lookup"):
+                    if k == "g" and out != "lookup":
                         yield ("vanished-not-lookup-exception", i, "got %s" % out)
+                    if k == "h" and out != "has0":
+                        yield ("vanished-has-template-not-false", i, "has_template gave %s" % out)
                     if u in st["keys"]:
                         yield ("vanished-not-evicted", i, "entry still cached")
             if out == "compile" and u in st["keys"]:
@@ -449,13 +495,13 @@ def reference(ndirs, checks, size, moddir, history, steps):
                     if u in frozen and frozen[u] != rid:
                         yield ("checks-off-not-frozen", i, "object %d -> %d" % (frozen[u], rid))
                     frozen[u] = rid
-                # ---- put entries
-                if u in put and size == -1 and rid != put[u]:
+                # ---- put entries (for an LRU: as long as the entry has not been evicted, see the end of the loop)
+                if u in put and rid != put[u]:
                     yield ("put-entry-not-served", i, "object %d was put, %d served" % (put[u], rid))
                 last_get[u] = (i, rid, True)
             elif k == "g":
                 last_get.pop(u, None)
-                if u in put and size == -1:
+                if u in put:
                     yield ("put-entry-not-served", i, "object %d was put, got %s" % (put[u], out))
             # for an LRU other fetches may evict: stability is claimed for immediate repetition only
             if size != -1:
@@ -477,6 +523,9 @@ def reference(ndirs, checks, size, moddir, history, steps):
             for u in list(lastuse):
                 if u not in st["keys"]:
                     del lastuse[u]
+            for u in list(put):
+                if u not in st["keys"]:
+                    del put[u]          # evicted: the loss itself is what the eviction comparison reports
         prev = st
 
 
@@ -523,6 +572,11 @@ def eviction_diff(real, ndirs, checks, size, moddir, history, lru_steps=None):
     -> (site, step, detail)"""
     if size == -1:
         return None
+    if any(o[0] == "p" for o in history):
+        # put_template names its template by construction index, which means different objects in the two runs:
+        # the comparison is made on the history without put_template
+        history = [o for o in history if o[0] != "p"]
+        lru_steps = None
     a = lru_steps if lru_steps is not None else real.run(ndirs, checks, size, moddir, history)
     b = real.run(ndirs, checks, -1, moddir, history)
     for i, (op, x, y) in enumerate(zip(history, a, b)):
@@ -535,15 +589,17 @@ def eviction_diff(real, ndirs, checks, size, moddir, history, lru_steps=None):
             uid = y["cached"].get(u) if y["out"].startswith(("ok.", "has1")) else None
             usrc = y["srcs"].get(uid, (None, None))[0] if uid is not None else None
             detail = "collection_size=%d serves %s, collection_size=-1 serves %s (a cold lookup would serve %s)" % (size, cx, cy, c)
-            one_cold = (cx == c) or (cy == c) or moddir       # a module file may stand in for the cold content
+            # whatever is served must at least be a content some file of this URI held (or a put entry)
+            held = {str(o[3]) for o in history[:i] if o[0] == "w" and o[2] == u}
+            legit = all((not v.isdigit()) or v in held for v in (cx, cy))
             if uid is not None and (usrc is None or usrc[1] != u):
                 # the unbounded lookup serves an entry that was put there (memory template or alias)
                 return ("lru-evicts-put-entry", i, detail)
-            if not checks and one_cold:
+            if not checks and legit:
                 return ("lru-eviction-reloads-with-checks-off", i, detail)
-            if not homed(history) and one_cold:
+            if not homed(history) and legit:
                 return ("lru-eviction-unshadows-directory", i, detail)
-            if not settled(history) and one_cold:
+            if not settled(history) and legit:
                 return ("lru-eviction-refreshes-within-grace-second", i, detail)
             return ("eviction-changes-content", i, detail)
     return None
@@ -609,7 +665,8 @@ def compare(ctx, stream, cases, real, reported, do_oracle=True):
                     ctx.branch("model:" + b)
                 if mv != rv:
                     i = next((i for i, (x, y) in enumerate(zip(mv, rv)) if x != y), min(len(mv), len(rv)))
-                    small = shrink_disagreement(ctx, real, c)
+                    # shrinking costs driver round trips: only the first few disagreements of a stream are minimised
+                    small = shrink_disagreement(ctx, real, c) if st["disagreements"] < 3 else c
                     ctx.disagree(stream, _case(small), {"step": i, "model": mv[i:i + 1]}, {"step": i, "impl": rv[i:i + 1]})
                 for s in steps:
                     ctx.branch("impl:" + s["out"].split(".")[0])
@@ -686,14 +743,16 @@ def run(ctx):
             for off in range(0, len(part), 5000):
                 compare(ctx, "corr.exhaustive_sampled", part[off:off + 5000], real, reported)
             # random histories
-            n = 1500 if ctx.quick else 40000
+            n = 1500 if ctx.quick else 25000
             cases = []
             for i in range(n):
                 ndirs = ctx.rng.choice([1, 2, 2, 3])
                 nuris = ctx.rng.choice([1, 2, 2, 3, 3, 4, 5, 8])
                 ln = ctx.rng.choice([ctx.rng.randint(1, 12), ctx.rng.randint(8, 40)])
-                h = random_history(ctx.rng, ndirs, nuris, ln)
-                ck, sz, md = CONFIGS[i % 16]
+                gen = lifecycle_history if i % 2 else random_history
+                h = gen(ctx.rng, ndirs, nuris, ln)
+                ctx.branch("gen:" + gen.__name__)
+                ck, sz, md = CONFIGS[(i // 2) % 16]
                 cases.append((ndirs, ck, sz, md, h))
             ctx.log("corr.random: %d histories" % len(cases))
             for off in range(0, len(cases), 2000):
